@@ -108,10 +108,14 @@ def faults(rnd, lang):
     """(text lines, expected error line, fault name)"""
     res = []
     lines, marks = valid_doc(rnd, lang)
-    kw = {"en": ("Feature: again", "Examples: e", "And first", "some text"), "de": ("Funktionalität: nochmal", "Beispiele: e", "Und zuerst", "irgendein Text")}[lang]
+    kw = {"en": ("Feature: again", "Examples: e", "And first", "some text", "Background: late"),
+          "de": ("Funktionalität: nochmal", "Beispiele: e", "Und zuerst", "irgendein Text", "Grundlage: spät")}[lang]
     for pos in marks["after_step"]:
         res.append((lines[:pos] + ["  " + kw[0]] + lines[pos:], pos + 1, "second-feature"))
         res.append((lines[:pos] + ["  " + kw[3]] + lines[pos:], pos + 1, "text-after-steps"))
+        res.append((lines[:pos] + ["  " + kw[4]] + lines[pos:], pos + 1, "background-after-steps"))
+        if rnd.random() < 0.3:
+            res.append((lines[:pos] + ["  @late", "  " + kw[4]] + lines[pos:], pos + 2, "background-after-steps"))
     for pos in marks["plain_scenario_after_steps"]:
         res.append((lines[:pos] + ["    " + kw[1]] + lines[pos:], pos + 1, "examples-outside-outline"))
     for pos in marks["first_step_no_bg"]:
@@ -192,11 +196,20 @@ def suites(tier, seed):
         body = [l for l in lines if not l.startswith("#")][1:]
         for m in mutations(rnd, body)[: (200 if thorough else 40)]:
             muts.append({"entry": rnd.choice(["rule", "scenario", "steps"]), "text": "\n".join(m) + "\n", "lang": (None if lang == "en" else lang)})
+        rbody = [{"en": "Rule: R", "de": "Regel: R"}[lang]] + body
+        for m in rnd.sample(mutations(rnd, rbody), 40 if thorough else 15):
+            muts.append({"entry": "rule", "text": "\n".join(m) + "\n", "lang": (None if lang == "en" else lang)})
     flt = []
     for _ in range(80 if thorough else 20):
         lang = rnd.choice(["en", "de"])
         for lines, where, name in faults(rnd, lang):
             flt.append({"entry": "feature", "text": "\n".join(lines) + "\n", "lang": None, "fault": [where, name]})
+            # the same document as a Rule (parse_rule entry point): the Feature line becomes the Rule line
+            if name != "second-feature":
+                off = 1 if lang != "en" else 0
+                rl = list(lines[off:])
+                rl[0] = {"en": "Rule: R", "de": "Regel: R"}[lang]
+                flt.append({"entry": "rule", "text": "\n".join(rl) + "\n", "lang": (None if lang == "en" else lang), "fault": [where - off, name]})
 
     def suite(name, cases, bound):
         return {"name": name, "cases": cases, "impl": gherk.impl_parse, "oracle": oracle, "shrink": shrink, "histogram": histogram,
